@@ -37,6 +37,10 @@ impl OrphanBroker {
     }
 
     fn search_orphan_leader(&self, leader_hash: ParentHash) {
+        // Read is_pending_verify before the status (as process_lonely_block does): the verify thread
+        // publishes a block's status first and removes it from is_pending_verify afterwards, so a
+        // leader that is no longer pending has its final status.
+        let leader_is_pending_verify = self.is_pending_verify.contains(&leader_hash);
         let leader_status = self.shared.get_block_status(&leader_hash);
 
         if leader_status.eq(&BlockStatus::BLOCK_INVALID) {
@@ -58,7 +62,6 @@ impl OrphanBroker {
             return;
         }
 
-        let leader_is_pending_verify = self.is_pending_verify.contains(&leader_hash);
         if !leader_is_pending_verify && !leader_status.contains(BlockStatus::BLOCK_STORED) {
             trace!(
                 "orphan leader: {} not stored {:?} and not in is_pending_verify: {}",
